@@ -11,7 +11,7 @@ CFG = {
              "mapping two glyphs to one file; every 5th tree carries the two legal names g711c6db79da05b78 / gdde3a1201b0b8338 whose DefaultHasher::new() "
              "values are equal, as glyph names and component bases within one layer and split across layers; every 6th tree has 5-8 layers of very different "
              "sizes with the default layer not first in layercontents.plist; half of the trees get a history of 1-30 public-API operations between load and save "
-             "(insert_glyph, remove_glyph, rename_glyph, entry().or_insert, on existing / early-sorting / previously used names) applied by both builds, the dump "
+             "(insert_glyph, remove_glyph, rename_glyph, entry().or_insert, exchange / copy of whole glyphs through get_glyph_mut, on existing / early-sorting / previously used names) applied by both builds, the dump "
              "after the history is compared as well; four trees with 33/41/49/70 layers (more than the 32-element small-sort threshold of std) and the default layer "
              "last / middle / second; four UFO 2 trees with unprefixed kerning groups named like glyphs of ANOTHER font, like dangling component bases and like "
              "own glyphs, groups and kerning after upconversion are part of the dump; every 4th tree and the UFO 2 trees are loaded after another font "
@@ -38,7 +38,10 @@ CFG = {
         "un-normalised token lists, iterated expression, shared consumer statement, mentioned shared state, error form, gathered collection, one-sided items, "
         "rayon API words); the normalisation is the Lean function ParSource.norm and part of the statement of source_par_bodies_equal_seq; a section whose anchor "
         "is missing uses tools/pinned/ParSites.lean (evidence: extraction: pinned). Trusted in one direction: a wrong extraction can fail a theorem or fall back, "
-        "not make a false one check. The tie is syntactic: a rayon-only rewrite of a paired body, even a harmless one, fails it until the twin is edited alike",
+        "not make a false one check. STRICT for the two iteration sites and the inventory (a rayon-only rewrite of a paired body there fails the tie until the twin is "
+        "edited alike). SOFT for the four representation pairs of names.rs: two forms of `get` are recognised (plain; double-checked = writeStep true of the model); any "
+        "other shape falls back to the pinned section unless it carries content words (static, OnceLock, HashMap, u64, Hasher ...), so a rayon-only rewrite of `get` into "
+        "an unknown shape is then tied by behaviour only",
         "kerning upconversion itself is C15; here groups and kerning are compared between the two builds only (par = seq oracle), not with a model",
         "process-wide state is probed by loading ONE other font before every load and by repeating loads 20x/500x in one process; longer histories of different fonts are not generated",
         "a name table that compares hashes instead of names is exercised for ONE hash function only (DefaultHasher::new(), the colliding pair in the name pool)",
@@ -64,7 +67,7 @@ MANIFEST = {
              "Source-level tie (tools/extract_par_sites.py -> Generated/ParSites.lean, every run): source_par_bodies_equal_seq (every rayon/not-rayon pair of src/ is token-equal "
              "after the normalisation ParSource.norm), source_par_sites_complete (the pairs are exactly the model's two parallel steps over `contents` plus the four "
              "representation pairs of the name table; no other pair, one-sided item or rayon API word), source_results_order_restored (BTreeMap / nothing gathered / sorted), "
-             "source_shared_state_matches_model (a task mentions only `names` resp. the glyph map; errors through collect::<Result> / try_for_each), source_get_is_two_step. "
+             "source_shared_state_matches_model (a task mentions only `names` resp. the glyph map; errors through collect::<Result> / try_for_each), source_get_is_two_step (the rayon get has one of the two known forms: plain, or double-checked = recheck_is_writeStep_true). "
              "PARTIAL: real schedules are sampled (sequential vs rayon build of the harness, pools 1/2/4/16, 20x/500x per tree), labelled as a test."),
     "design_ref": "5 / C19",
     "note": "trusted: Lean kernel + 3 standard axioms; harness/driver glue; atomicity of lock sections and file writes, rayon, rustc memory safety; real interleavings sampled, not proved",
